@@ -49,6 +49,21 @@ def run(tier):
                        form, L, sx.dom_show(acc) if acc else "-", sx.dom_show(leg), wit),
                    detail={"accepted": sx.dom_show(acc) if acc else None, "legal": sx.dom_show(leg), "illegal_accepted": wit},
                    sample={"row": form, "operand": L, "accepted": sx.dom_show(acc) if acc else None, "legal": sx.dom_show(leg)} if ok else None)
+        # the reduced cores have r16..r31 only: what a path that may run for such a core accepts must lie in that half
+        for L, leg in sorted(g.get("legal_rc", {}).items()):
+            acc = g.get("accepted_rc", {}).get(L)
+            if acc is None:
+                continue         # no successful path for a reduced core: nothing is accepted
+            ok = sx.dom_subset(acc, leg)
+            wit = None
+            an = sx.dom_norm(acc)
+            if not ok and an[0] == 'set':
+                wit = sorted(v for v in an[1] if not sx.dom_contains(leg, v))[:10]
+            rep.ob("C04.domain-rc|%s|%s" % (tag, L), ok,
+                   "%s: on a reduced core accepted %s ⊆ legal %s for operand %s" % (form, sx.dom_show(acc), sx.dom_show(leg), L) if ok else
+                   "%s: on a reduced core (r16..r31 only) operand %s accepts what the core cannot address: accepted %s, legal %s, e.g. %s" % (
+                       form, L, sx.dom_show(acc), sx.dom_show(leg), wit),
+                   detail={"accepted": sx.dom_show(acc), "legal": sx.dom_show(leg), "illegal_accepted": wit})
         # operand count: an Ok path must know len(op_args) == arity of the row
         ar = len(r["operands"])
         ld = g["len_dom"]
@@ -83,6 +98,7 @@ def run(tier):
     rep.ob("C04.kind|all", not seen, "every successful path of the encoder corresponds to an ISA form (operand kinds)" if not seen else
            "%d operand-kind combinations without an ISA form" % len(seen), nontrivial=False)
     rep.floor("row x operand-kind groups compared", len(A["groups"]), 250)
+    rep.floor("reduced-core domain obligations", sum(1 for o in rep.obligations if o[0].startswith("C04.domain-rc|")), 330)
     spellings(P, rep)
     return rep
 
